@@ -166,6 +166,17 @@ func vxC09Oracle(job vxJob, o vxOutcome) (sig, msg string) {
 			site = "controller.calculateTargetPwm:ui.Fatal"
 		} else if strings.Contains(o.Stderr, "ui.Fatal") {
 			site = "ui.Fatal"
+		} else if i := strings.Index(o.Stderr, "panic: "); i >= 0 {
+			// first fan2go (non-harness) frame of the panicking goroutine
+			for _, l := range strings.Split(o.Stderr[i:], "\n") {
+				if strings.HasPrefix(l, "github.com/markusressel/fan2go/") && !strings.Contains(l, "verifshim") && !strings.Contains(l, ".vx") && !strings.Contains(l, "TestVX") {
+					site = strings.TrimPrefix(l, "github.com/markusressel/fan2go/")
+					if k := strings.LastIndex(site, "("); k > 0 {
+						site = site[:k]
+					}
+					break
+				}
+			}
 		}
 		return "C09 daemon crashed (site=" + site + ")", fmt.Sprintf("%s (%s)\nbefore the final SIGTERM: %v\nfans afterwards: %v", o.Panic, cls(), !finalSeen, vxFansRestored(job, o))
 	}
@@ -217,7 +228,8 @@ func TestVX_C09(t *testing.T) {
 		c     string
 		kinds []string
 	}
-	comps := []comp{{"sensor", []string{"error", "garbage"}}, {"rpm", []string{"error", "garbage"}}, {"pwmread", []string{"error", "garbage"}}, {"pwmwrite", []string{"error", "ignored"}}, {"modewrite", []string{"error", "ignored"}}}
+	readKinds := []string{"error", "garbage", "blank", "empty"}
+	comps := []comp{{"sensor", readKinds}, {"rpm", readKinds}, {"pwmread", readKinds}, {"pwmwrite", []string{"error", "ignored"}}, {"modewrite", []string{"error", "ignored"}}}
 	var singles []vxFault
 	for _, c := range comps {
 		for _, k := range c.kinds {
@@ -230,7 +242,10 @@ func TestVX_C09(t *testing.T) {
 	ci := 0
 	for _, fk := range []string{"hwmon", "file", "cmd"} {
 		for _, sk := range []string{"hwmon", "file", "cmd"} {
-			for _, cv := range []string{"linear", "pid", "func-linear", "func-pid"} {
+			for _, cv := range []string{"linear", "pid", "func-linear", "func-pid", "func2pid-sum", "func2pid-difference", "func2pid-average", "func2pid-delta", "func2pid-minimum", "func2pid-maximum"} {
+				if strings.HasPrefix(cv, "func2pid-") && !mc.Thorough() && (fk != "hwmon" || sk == "cmd") {
+					continue // quick: the six function types over PID members on hwmon fans with hwmon/file sensors
+				}
 				ci++
 				base := vxJob{Fans: []vxJobFan{{ID: "fanA", Kind: fk, OrigMode: 2, OrigPwm: 70, Stored: true}}, Sensor: sk, Curve: cv, Cycles: 7}
 				if fk != "hwmon" {
@@ -256,7 +271,7 @@ func TestVX_C09(t *testing.T) {
 					add(f)
 				}
 				// pairs: every pair of single faults (thorough: on all combos; quick: on 4 representative combos, windows 0..2)
-				pairCombo := mc.Thorough() || (ci%9 == 2 && !heavy)
+				pairCombo := (mc.Thorough() && !strings.HasPrefix(cv, "func2pid-")) || (ci%9 == 2 && !heavy) || (cv == "func2pid-delta" && fk == "hwmon" && sk == "file")
 				if pairCombo {
 					for a := 0; a < len(singles); a++ {
 						for b := a + 1; b < len(singles); b++ {
